@@ -30,6 +30,7 @@ def gen(rng, tier):
 
 SPEC = {
     "C03": {
+        "extra_props": ("AbsQueue",),
         "parts": [{"name": "mutex", "harness": "mutex", "model": "Mutex", "runtime": True, "gen": gen,
                    "nontrivial": lambda s: s["hist"].get("xchg tail", 0) >= 1}],
         "rule": "cases = (script of 2-6 fibers doing lock/trylock/unlock with a yield inside the critical section, 1-3 kernel threads, scheduler kind+seed) from VERIF_SEED; distinct = different (script, sha1 of access sequence); non-trivial = at least one contended lock (a waiter was enqueued)",
